@@ -21,7 +21,7 @@ echo "suite: fail-lines=$fails non-flaky-failures=$nonflaky"
 # demo files: untracked zz_* test files of the agent worktree (outside _mutation)
 demos=$(cd $src && git status --porcelain --untracked-files=all | awk '{print $2}' | grep -v "^_mutation/" | grep "_test.go$")
 race=""
-grep -qi "go test -race\|-race " $src/_mutation/NOTES.md 2>/dev/null && race="-race"
+grep -q "go test -race\|go test .* -race " $src/_mutation/NOTES.md 2>/dev/null && race="-race"
 pkgs=""
 for d in $demos; do mkdir -p $(dirname $d); cp $src/$d $d; pkgs="$pkgs ./$(dirname $d)"; done
 pkgs=$(echo $pkgs | tr ' ' '\n' | sort -u | tr '\n' ' ')
